@@ -412,6 +412,10 @@ func (rc *RunCtx) processFindings() {
 	}
 	sort.Slice(all, func(i, j int) bool { return findingKey(all[i]) < findingKey(all[j]) })
 	replayDir := filepath.Join(rc.Verif, "replays", rc.Prop.ID)
+	if d := os.Getenv("VERIF_EVIDENCE_DIR"); d != "" {
+		// evaluation of a scratch tree: private replay directory (several evaluations may run at once)
+		replayDir = filepath.Join(d, "replays", fmt.Sprintf("%s-%d", rc.Prop.ID, os.Getpid()))
+	}
 	os.RemoveAll(replayDir)
 	// group per (kind,id,site): replay at most a few representatives per group but classify all
 	for _, f := range all {
